@@ -192,8 +192,27 @@ def surface_class(ps):
     return 'lowered' if any(c[2] <= top for c in ps['cols']) else 'full'
 
 
-def mapper(ps, pt):
-    return mm.Mapper(pt['cols'], pt['lays'], ps['cols'], ps['lays'], ps['scale_xy'], ps['scale_z'])
+_mappers = {}
+
+
+def mapper(src, tgt, ps, pt):
+    """The brute-force nearest sets depend on column and layer positions only, not on atmosphere type or names:
+    computed once per pair of (cached) geometry objects."""
+    key = (id(src), id(tgt))
+    if key not in _mappers:
+        _mappers[key] = mm.Mapper(pt['cols'], pt['lays'], ps['cols'], ps['lays'],
+                                  ps['scale_xy'], ps['scale_z'])
+    return _mappers[key]
+
+
+_plains = {}
+
+
+def plain_of(geo):
+    key = (id(geo), geo.atmosphere_type)
+    if key not in _plains:
+        _plains[key] = plain(geo)
+    return _plains[key]
 
 
 def check_mapping(mapping, ps, pt, same, mp):
@@ -317,10 +336,10 @@ def run_map_case(s, t, cs, ct, ats, att, variant, rec=None):
             tgt = geometry(t, ct, 1)
     set_atm(src, ats)
     set_atm(tgt, att)
-    ps, pt = plain(src), plain(tgt)
+    ps, pt = plain_of(src), plain_of(tgt)
     same = (s == t and ps['names'] == pt['names'] and (cs == ct or s in 'IJ'))
     atmclass = 'atm %d->%d' % (ats, att)
-    mp = mapper(ps, pt)
+    mp = mapper(src, tgt, ps, pt)
     mapping = None
     try:
         with quiet():
@@ -466,6 +485,9 @@ def gen_record(g):
             tuple(g.time), tuple(g.rate), tuple(g.enthalpy))
 
 
+_models = {}
+
+
 def eval_model_case(case):
     from t2data import t2data
     from t2grids import t2grid, rocktype
@@ -480,12 +502,19 @@ def eval_model_case(case):
     if not (case['preserve'] or case['rename']):
         cls = label
     with quiet():
-        dat = t2data()
-        dat.grid = t2grid().fromgeo(src)
-        for rn in ('rock1', 'rock2'):
-            dat.grid.add_rocktype(rocktype(rn))
-        for k, b in enumerate(dat.grid.blocklist):
-            b.rocktype = dat.grid.rocktype[('dfalt', 'rock1', 'rock2')[k % 3]]
+        dkey = (id(src), atm)
+        if dkey not in _models:
+            # the source model (grid, rock types) is the same for every generator set: built once
+            dat = t2data()
+            dat.grid = t2grid().fromgeo(src)
+            for rn in ('rock1', 'rock2'):
+                dat.grid.add_rocktype(rocktype(rn))
+            for k, b in enumerate(dat.grid.blocklist):
+                b.rocktype = dat.grid.rocktype[('dfalt', 'rock1', 'rock2')[k % 3]]
+            _models.clear()
+            _models[dkey] = dat
+        dat = _models[dkey]
+        dat.clear_generators()
         top, bottom = [], []
         for slot, (pos, kind) in enumerate(gset):
             g, cat = make_generator(src, pos, kind, slot)
